@@ -928,7 +928,7 @@ def build(work, tier):
         note='restricted to the members jingleMessageInitiationElement / callInviteElement (recorded finding)')
     # 3b. parseExtensions (the child loop): parseExtension enters through the contract it is verified against above; the unknown
     #     children are stored with setExtensions() in every mode, which for ScePublic is the parse side of the recorded finding
-    pxs = base_helpers + b.prototype(texts['QXmppMessage_parseExtension']) + texts['QXmppMessage_parseExtensions']
+    pxs = base_helpers + b.prototype(texts['QXmppMessage_parseExtension'], keep_ensures=4) + texts['QXmppMessage_parseExtensions']   # the loop needs the four mode postconditions only
     hx = 'QXmppMessage *self; qdom e; quint8 m; QXmppMessage_parseExtensions(self, e, m);'
     for pid, dfn, fnd, note in (('parseExtensions', 'FINDING_EXCLUDED_EXT', None,
                                  'every element with any number of children (loop contract), every mode, every prior message state; parseExtension through its verified contract; every stanza member except `extensions`'),
@@ -1078,6 +1078,11 @@ def find_input(unit, p, o, lab, work):
         rc, out = _run_native('replay_split.cpp', ['extensions'])
         if rc == 1 and 'VIOLATED' in out:
             return {'inputs': {'driver': 'replay_split.cpp', 'args': ['extensions']}, 'reproduced': True, 'native_output': out[-3000:]}
+        return None
+    if '_is_consumed_' in lab:
+        rc, out = _run_native('replay_split.cpp', ['consumed'])
+        if rc == 1 and 'VIOLATED' in out:
+            return {'inputs': {'driver': 'replay_split.cpp', 'args': ['consumed']}, 'reproduced': True, 'native_output': out[-3000:]}
         return None
     if p.id.startswith('pubsub'):
         rc, out = _run_native('replay_split.cpp', ['pubsub'])
